@@ -7,6 +7,7 @@ import (
 	"grog/internal/console"
 	"grog/internal/label"
 	"grog/internal/model"
+	"grog/internal/verifhook"
 	"runtime"
 	"sync"
 
@@ -66,6 +67,7 @@ func LoadPackages(ctx context.Context, startDir string) ([]*model.Package, error
 					continue
 				}
 
+				verifhook.Point("load.file", fileEntry.Filename)
 				packageDTO, matched, err := packageLoader.LoadIfMatched(loadContext, fileEntry.Location, fileEntry.Filename)
 				if err != nil {
 					setError(err)
